@@ -80,6 +80,8 @@ def make_exhaustive(maxn):
 def random_case(ctx, idx, rng):
     shape_kind = str(rng.choice(['any', 'tall', 'wide', 'row', 'col', 'square']))
     big = 40 if idx % 20 else 160
+    if idx % 300 == 150:
+        big = 700                    # occasionally a really large matrix (anything that switches algorithm above a size threshold)
     if shape_kind == 'row':
         m, n = 1, int(rng.integers(1, big))
     elif shape_kind == 'col':
